@@ -864,6 +864,32 @@ def c02(tier):
             near = [1 - 2.0 ** -24, -(1 - 2.0 ** -24), 1 - 2.0 ** -23, 1 - 2.0 ** -16, -(1 - 2.0 ** -23), 1 - 2.0 ** -10, 0.75, -0.75, 2.0 ** -23, 3 * 2.0 ** -24, -3 * 2.0 ** -24]
             for big in (0, 1):
                 G.enc(S, sub, big, T, G.val_tokens(T, [1.0, -1.0, 1.5, -1.5, 2.0, -2.0, 0.0, 0.5, -0.5, 0.25] + near), clip=1)
+    # 24 and 32 bit targets, clipping off: nearest integer to x * (2^(w-1) - 1) (ScaleWide); inputs inside the rule's preconditions
+    nw = 1500 if tier == "quick" else 12000
+    for sub, w in ((3, 24), (4, 32)):
+        for big in (0, 1):
+            xs = []
+            for _ in range(nw):                    # float: w = 24 needs |m| <= 255; w = 32 takes any float
+                if w == 24:
+                    k = rng.randint(8, 23)
+                    m = rng.randrange(1, 256, 2)
+                else:
+                    k = rng.randint(24, 40)
+                    m = rng.randrange(1, 1 << 24, 2)
+                    while m >= (1 << k):
+                        m >>= 1
+                        m |= 1
+                xs.append(rng.choice((-1, 1)) * m / float(1 << k))
+            xs += [0.0, 0.5, -0.5, 0.25, -0.75, 2.0 ** -23, -(2.0 ** -23), 255 / 256.0, -255 / 256.0]
+            G.enc(S, sub, big, "f", G.val_tokens("f", xs))
+            xd = []
+            for _ in range(nw):                    # double: on the 2^-(w-1) grid, at most 22 significant bits for w = 32
+                k = rng.randint(1, w - 1)
+                m = rng.randrange(1, 1 << min(k, 22 if w == 32 else 23), 2) if k > 1 else 1
+                xd.append(rng.choice((-1, 1)) * m / float(1 << k))
+            g = w - 1 if w == 24 else 22           # finest step the preconditions allow around 1/2 and 1
+            xd += [0.0, 0.5, -0.5, 0.5 + 2.0 ** -g, -(0.5 + 2.0 ** -g), 0.5 - 2.0 ** -g, 1 - 2.0 ** -g, -(1 - 2.0 ** -g), 2.0 ** -(w - 1), -(2.0 ** -(w - 1))]
+            G.enc(S, sub, big, "d", G.val_tokens("d", xd))
     # G.711 targets: every short, ints with and without low bits, every stored code through the four types
     for sub in (0x10, 0x11):
         for i in range(0, len(shorts), 16384):
@@ -929,7 +955,7 @@ def c17(tier):
     handles = [("none", None, None)]
     fmts = [(0x10002, 2), (0x40006, 1)] if tier == "quick" else [(0x10002, 2), (0x10006, 1), (0x130002, 2), (0x220002, 1), (0x20002, 2), (0x20006, 1), (0x180002, 2), (0x180006, 1), (0x40002, 1), (0x40006, 2)]
     for fmt, ch in fmts:
-        for mode in ("r", "w", "rw"):
+        for mode in ("r", "w", "w0", "rw"):          # w0: write handle on which no audio has been written yet (the state the setters are for)
             handles.append((mode, fmt, ch))
     names = CMD_NAMES + undefined
     od = os.path.join(vlib.ROOT, "out", "C17", tier)
@@ -944,12 +970,13 @@ def c17(tier):
             if fmt:
                 T = gen_core.type_for(fmt)
                 # the file carries every metadata item its container takes, so that the get commands have something to copy out
-                lines += ["file 1 new", "open 0 fd w 1 %d %d %d" % (fmt, ch, RATE), "setstr 0 1 5469746c65", "setmeta 0 bext 4 9 30", "setmeta 0 cart 5 6 12", "setmeta 0 cues 3 5 3",
-                          "setmeta 0 inst 2 1 1", "setmeta 0 chmap 1 1", "write 0 %s f 40 gen noise 3 0" % T, "close 0",
-                          "open 0 fd %s 1 %d %d %d" % (mode, fmt, ch, RATE)]
-                if mode != "w":
+                # (chunks that end up behind the audio -- strings, cues, instrument -- make the library refuse an RDWR open: left out for rw)
+                rich = ["setmeta 0 bext 4 9 30", "setmeta 0 cart 5 6 12", "setmeta 0 chmap 1 1"] + ([] if mode == "rw" else ["setstr 0 1 5469746c65", "setmeta 0 cues 3 5 3", "setmeta 0 inst 2 1 1"])
+                lines += ["file 1 new", "open 0 fd w 1 %d %d %d" % (fmt, ch, RATE)] + rich + ["write 0 %s f 40 gen noise 3 0" % T, "close 0",
+                          "open 0 fd %s 1 %d %d %d" % ("w" if mode == "w0" else mode, fmt, ch, RATE)]
+                if mode in ("r", "rw"):
                     lines.append("read 0 %s f 3" % T)
-                if mode != "r":
+                if mode in ("w", "rw"):
                     lines.append("write 0 %s f 2 gen noise 4 0" % T)
             for sz in sizes:
                 if tier == "quick" and sz > 60 and rng.random() < 0.5:
@@ -978,6 +1005,20 @@ def c17(tier):
         return v
     vs = vlib.parallel(jobs, one)
     bad = [b for v in vs for b in v["bad"]]
+    # vacuity guard: every (format, handle state) of the grid must really have been reached (an open that fails would silently
+    # turn the whole column into NULL-handle calls -- it did once for WAV read/write handles)
+    reached = collections.defaultdict(int)
+    for _, ep in jobs:
+        cur = None
+        for ln in open(ep):
+            if '"op":"reset"' in ln:
+                c = json.loads(ln)["cfg"]
+                cur = (c.get("fmt"), c.get("hmode"))
+            elif '"op":"cmdgrid"' in ln and cur and '"hstate":0,' not in ln:
+                reached[cur] += 1
+    missing = [(m, "0x%x" % f) for (m, f, _) in handles if f and reached[(f, m)] == 0]
+    if missing:
+        raise Infra("C17 grid: handle states never reached (open failed?): %s" % missing)
     # confirm: one representative per (command, reason, handle state)
     seen, todo = set(), []
     for b in bad:
